@@ -110,6 +110,19 @@ class Tracked(object):
     def __ne__(self, o):
         return not self.__eq__(o)
 
+    # ordered by tag (byValue() orders values)
+    def __lt__(self, o):
+        return self.tag < o.tag if isinstance(o, Tracked) else NotImplemented
+
+    def __gt__(self, o):
+        return self.tag > o.tag if isinstance(o, Tracked) else NotImplemented
+
+    def __le__(self, o):
+        return self.tag <= o.tag if isinstance(o, Tracked) else NotImplemented
+
+    def __ge__(self, o):
+        return self.tag >= o.tag if isinstance(o, Tracked) else NotImplemented
+
     def __hash__(self):
         return hash(self.tag)
 
